@@ -280,6 +280,15 @@ class Namespace:
         self.name = name
 
 
+class LazyTail:
+    """A finite prefix followed by one value repeated for ever: chain([a, b], repeat(v)) / repeat(v)."""
+    def __init__(self, prefix, value):
+        self.prefix, self.value = list(prefix), value
+
+    def take(self, n):
+        return self.prefix[:n] + [self.value] * max(0, n - len(self.prefix))
+
+
 class PartialCall:
     """functools.partial(f, *args, **kw)"""
     def __init__(self, f, args, kw):
@@ -775,6 +784,15 @@ class Interp:
                 return Namespace(e.id)
             if e.id in _BUILTINS:
                 return Namespace("builtins." + e.id)
+            if not hasattr(self, "_from_imports"):
+                self._from_imports = {}
+                for tree in self.model.trees.values():
+                    for st in tree.body:
+                        if isinstance(st, ast.ImportFrom) and st.module in ("itertools", "functools", "collections", "copy", "math"):
+                            for al in st.names:
+                                self._from_imports[al.asname or al.name] = "%s.%s" % (st.module, al.name)
+            if e.id in self._from_imports:
+                return Namespace(self._from_imports[e.id])
             if e.id in self.model.classes:
                 return ClassRef(e.id)
             if not hasattr(self, "_rectypes"):
@@ -1159,10 +1177,34 @@ class Interp:
         if n == "set":
             raise Unsupported("set() in interpreted code")
         if n == "enumerate":
-            start = self.index(args[1]) if len(args) > 1 else self.index(kw.get("start", 0))
-            return [(k, x) for k, x in enumerate(self.as_iter(args[0]), start)]
+            st = args[1] if len(args) > 1 else kw.get("start", 0)
+            try:
+                start = self.index(st)
+                return [(k, x) for k, x in enumerate(self.as_iter(args[0]), start)]
+            except Unsupported:
+                # a symbolic start (a cell index): position k is start + k
+                return [(self.arith(ast.Add(), st, k) if k else st, x) for k, x in enumerate(self.as_iter(args[0]))]
         if n == "zip":
-            return [tuple(t) for t in zip(*[self.as_iter(a) for a in args])]
+            fin = [list(self.as_iter(a)) for a in args if not isinstance(a, LazyTail)]
+            if not fin:
+                raise Unsupported("zip of unbounded iterators only")
+            ln = min(len(x) for x in fin)
+            cols = [a.take(ln) if isinstance(a, LazyTail) else list(self.as_iter(a))[:ln] for a in args]
+            return [tuple(t) for t in zip(*cols)]
+        if n in ("itertools.repeat", "repeat"):
+            if len(args) == 2 or "times" in kw:
+                return AList([args[0]] * self.index(args[1] if len(args) == 2 else kw["times"]))
+            return LazyTail([], args[0])
+        if n in ("itertools.islice", "islice"):
+            a = [None if x is None else self.index(x) for x in args[1:]]
+            if isinstance(args[0], LazyTail):
+                stop = a[0] if len(a) == 1 else a[1]
+                if stop is None:
+                    raise Unsupported("islice of an unbounded iterator without a stop")
+                seq = args[0].take(stop)
+            else:
+                seq = list(self.as_iter(args[0]))
+            return AList(seq[slice(*a)] if len(a) > 1 else seq[:a[0]])
         if n == "reversed":
             return AList(reversed(list(self.as_iter(args[0]))))
         if n in ("int", "float"):
@@ -1190,7 +1232,11 @@ class Interp:
             return AList([tuple(t) for t in _it.product(*seqs, repeat=rep)])
         if n in ("itertools.chain", "chain"):
             out = AList()
-            for a in args:
+            for k2, a in enumerate(args):
+                if isinstance(a, LazyTail):
+                    if k2 != len(args) - 1:
+                        raise Unsupported("an unbounded iterator in the middle of a chain")
+                    return LazyTail(list(out) + a.prefix, a.value)
                 out.extend(self.as_iter(a))
             return out
         if n in ("itertools.chain.from_iterable", "chain.from_iterable"):
